@@ -1314,7 +1314,10 @@ class SQLModel:
                 if k in subusing
             }
         else:
-            subsql.terms = []
+            # the step selected * so far: name the selected columns
+            subsql.terms = {
+                k: None for k in select_columns_node.column_selection if k in subusing
+            }
         return subsql
 
     def drop_columns_to_near_sql(
